@@ -369,7 +369,60 @@ func (x *Exec) callValue(st *State, call *ast.CallExpr, v *types.Var) []*Term {
 		args := x.evalArgs(st, call, fi.sig(), nil)
 		return x.inlineCall(st, fi, nil, args, call)
 	}
+	// a variable holding one of several named functions: dispatch statically
+	if !x.boxed[v] {
+		if t, ok := st.vars[v]; ok {
+			if leaves, ok := x.fnLeaves(t, tTrue); ok {
+				sig := x.typeOf(call.Fun).Underlying().(*types.Signature)
+				n := len(st.pc)
+				var ends []*State
+				rv := x.retVars(sig)
+				for _, lf := range leaves {
+					bs := st.clone()
+					bs.pc = append(bs.pc, lf.guard)
+					rs := x.callStatic(bs, call, lf.fn, nil, nil)
+					if bs.dead() {
+						continue
+					}
+					for j, r := range rs {
+						bs.vars[rv[j]] = r
+					}
+					ends = append(ends, bs)
+				}
+				mg := x.merge(n, ends)
+				if mg == nil {
+					st.kill()
+					return x.unknownResults(st, sig, "fn")
+				}
+				*st = *mg
+				var out []*Term
+				for _, r := range rv {
+					out = append(out, st.vars[r])
+					delete(st.vars, r)
+				}
+				return out
+			}
+		}
+	}
 	return x.callDynamic(st, call)
+}
+
+type fnLeaf struct {
+	guard *Term
+	fn    *types.Func
+}
+
+// fnLeaves decomposes an if-then-else tree over named-function constants.
+func (x *Exec) fnLeaves(t *Term, guard *Term) ([]fnLeaf, bool) {
+	if t.Op == "ite" && len(t.Args) == 3 {
+		a, ok1 := x.fnLeaves(t.Args[1], And(guard, t.Args[0]))
+		b, ok2 := x.fnLeaves(t.Args[2], And(guard, Not(t.Args[0])))
+		return append(a, b...), ok1 && ok2
+	}
+	if fn, ok := x.fnSyms[t.Op]; ok && t.IsLeaf() {
+		return []fnLeaf{{guard, fn}}, true
+	}
+	return nil, false
 }
 
 func (x *Exec) callDynamic(st *State, call *ast.CallExpr) []*Term {
@@ -725,18 +778,6 @@ func (x *Exec) contractCall(st *State, fi *FuncInfo, args []*Term, call *ast.Cal
 		for k, v := range eff.Writes {
 			touched[k] = v
 		}
-		for k, v := range eff.Allocs {
-			touched[k] = v
-		}
-		if eff.Top {
-			x.note("callee %s has unknown syntactic effects; its modifies clause is trusted for pre-allocated cells", fi.Name())
-			// heaps may change only in fresh cells and declared locations: link every known heap
-			for k, h := range st.heaps {
-				if _, ok := touched[k]; !ok {
-					touched[k] = Sort(string(h.Sort)[len("(Array Int ") : len(h.Sort)-1])
-				}
-			}
-		}
 		for _, name := range sortedKeys(touched) {
 			elem := touched[name]
 			var mine []*Term
@@ -753,8 +794,7 @@ func (x *Exec) contractCall(st *State, fi *FuncInfo, args []*Term, call *ast.Cal
 					}
 				}
 			}
-			_, allocs := eff.Allocs[name]
-			if !allocs && !eff.Top && len(ranges) == 0 {
+			if len(ranges) == 0 {
 				// only the declared cells change
 				h := x.heap(st, name, elem)
 				for _, r := range mine {
@@ -905,6 +945,10 @@ func (x *Exec) pureCall(st *State, fi *FuncInfo, args []*Term, call *ast.CallExp
 		fmt.Sscanf(v, "%d", &limit)
 	}
 	key := app.String()
+	if !app.Bound && !x.framed[key] {
+		x.framed[key] = true
+		x.specFrameAxioms(fi, name, app, sortedKeys(eff.Reads), fargs, args)
+	}
 	if x.specRec[fi.Obj] < limit && !x.unfolded[key] && !app.Bound {
 		x.unfolded[key] = true
 		x.specRec[fi.Obj]++
@@ -914,6 +958,87 @@ func (x *Exec) pureCall(st *State, fi *FuncInfo, args []*Term, call *ast.CallExp
 		x.axiom(Eq(app, body[0]))
 	}
 	return []*Term{app}
+}
+
+// specFrameAxioms: a recursive specification function whose only heap
+// footprint is the elements of its slice arguments has the same value in two
+// heap versions that agree on those elements. For every heap argument that is
+// a store or a linked fresh version, the application is equated with the one
+// over the predecessor heap, under the condition that the footprint is kept.
+func (x *Exec) specFrameAxioms(fi *FuncInfo, name string, app *Term, heapNames []string, fargs []*Term, args []*Term) {
+	sig := fi.sig()
+	var ptypes []types.Type
+	if sig.Recv() != nil {
+		ptypes = append(ptypes, sig.Recv().Type())
+	}
+	for i := 0; i < sig.Params().Len(); i++ {
+		ptypes = append(ptypes, sig.Params().At(i).Type())
+	}
+	nh := len(heapNames)
+	for hi, hname := range heapNames {
+		// footprint of this heap: the element ranges of slice arguments stored in it
+		var ranges []*Term
+		covered := false
+		for ai, pt := range ptypes {
+			if sl, ok := pt.Underlying().(*types.Slice); ok && ai < len(args) {
+				for _, h := range heapsOfType(sl.Elem()) {
+					if h == hname {
+						ranges = append(ranges, args[ai])
+						covered = true
+					}
+				}
+			}
+		}
+		if !covered {
+			continue
+		}
+		var chain func(cur *Term, depth int)
+		chain = func(cur *Term, depth int) {
+			if depth > 6 {
+				return
+			}
+			ht := cur.Args[hi]
+			var pred, cond *Term
+			switch {
+			case ht.Op == "ite" && len(ht.Args) == 3:
+				na := append([]*Term(nil), cur.Args...)
+				nb := append([]*Term(nil), cur.Args...)
+				na[hi], nb[hi] = ht.Args[1], ht.Args[2]
+				a, b := App(name, app.Sort, na...), App(name, app.Sort, nb...)
+				x.axiom(Eq(cur, Ite(ht.Args[0], a, b)))
+				chain(a, depth+1)
+				chain(b, depth+1)
+				return
+			case ht.Op == "store" && len(ht.Args) == 3:
+				pred = ht.Args[0]
+				var cs []*Term
+				for _, sl := range ranges {
+					cs = append(cs, Or(Lt(ht.Args[1], slBase(sl)), Ge(ht.Args[1], Add(slBase(sl), slLen(sl)))))
+				}
+				cond = And(cs...)
+			case ht.IsLeaf() && x.links[ht.Op] != nil:
+				l := x.links[ht.Op]
+				pred = l.pred
+				var cs []*Term
+				for _, sl := range ranges {
+					x.nfresh++
+					r := BoundVar(fmt.Sprintf("r!q%d", x.nfresh), SInt)
+					cs = append(cs, Forall([]*Term{r}, Implies(And(Le(slBase(sl), r), Lt(r, Add(slBase(sl), slLen(sl)))), l.keep(r))))
+				}
+				cond = And(cs...)
+			}
+			if pred == nil {
+				return
+			}
+			nargs := append([]*Term(nil), cur.Args...)
+			nargs[hi] = pred
+			next := App(name, app.Sort, nargs...)
+			x.axiom(Implies(cond, Eq(cur, next)))
+			chain(next, depth+1)
+		}
+		chain(app, 0)
+	}
+	_ = nh
 }
 
 // ---------------------------------------------------------------- markers
@@ -942,6 +1067,13 @@ func (x *Exec) evalMarker(st *State, call *ast.CallExpr, name string) *Term {
 		return Implies(x.eval(st, call.Args[0]), x.eval(st, call.Args[1]))
 	case "__iff":
 		return Eq(x.eval(st, call.Args[0]), x.eval(st, call.Args[1]))
+	case "__samefn":
+		a := x.eval(st, call.Args[0])
+		b := x.eval(st, call.Args[1])
+		if a.Sort != b.Sort {
+			x.unsupported(call, "samefn on different sorts")
+		}
+		return Eq(a, b)
 	case "__forall", "__exists":
 		lo := x.eval(st, call.Args[0])
 		hi := x.eval(st, call.Args[1])
@@ -1021,6 +1153,9 @@ func (x *Exec) evalConversion(st *State, call *ast.CallExpr, to types.Type) *Ter
 		return x.eval(st, arg)
 	case isStringType(to) && isIntType(from):
 		v := x.eval(st, arg)
+		if n, ok := v.intVal(); ok && n.IsInt64() && n.Int64() >= 0 && n.Int64() < 0x10ffff {
+			return x.strLit(string(rune(n.Int64())))
+		}
 		r := x.app("str.fromrune", SStr, v)
 		x.axiom(And(Le(IntLit(1), x.app("str.len", SInt, r)), Le(x.app("str.len", SInt, r), IntLit(4))))
 		return r
